@@ -763,7 +763,12 @@ class AutoSerialize:
 
         # Remove attributes in skip_names that may have been set by __init__ (when using __new__)
         for name in skip_names:
-            if hasattr(obj, name):
+            # only instance attributes: hasattr() is also true for methods, properties and
+            # class attributes of the same name, which cannot (and must not) be deleted
+            slot = getattr(type(obj), name, None)
+            if name in getattr(obj, "__dict__", {}) or (
+                type(slot).__name__ == "member_descriptor" and hasattr(obj, name)
+            ):
                 delattr(obj, name)
 
         # attrs pattern: call post-init if defined
